@@ -486,9 +486,11 @@ Lemma sprog_ind' (P : sprog -> Prop)
   (HU : forall w p, P p -> P (SSub w p))
   (HM : forall f, P (SMap f))
   (HC : forall m, P (SCheck m))
+  (HI : P SId)
+  (HMu : forall id c alts, Forall P alts -> P (SMulti id c alts))
   (HL : forall id c body fuel, P body -> P (SLoop id c body fuel)) : forall p, P p.
 Proof.
-  fix IH 1. intros [w id sp|p q|ps|id c alts|w p|f|m|id c body fuel].
+  fix IH 1. intros [w id sp|p q|ps|id c alts|w p|f|m| |id c alts|id c body fuel].
   - apply HN.
   - apply HS; apply IH.
   - apply HP. induction ps; constructor; auto.
@@ -496,7 +498,22 @@ Proof.
   - apply HU, IH.
   - apply HM.
   - apply HC.
+  - apply HI.
+  - apply HMu. induction alts; constructor; auto.
   - apply HL, IH.
+Qed.
+
+Theorem spec_mcond_ok c : cond_ok (mcond_of_spec c).
+Proof.
+  split.
+  - unfold has_any, has, mcond_of_spec. cbn [nI nS nC nT]. destruct (cs_collect c); reflexivity.
+  - exists (mchoice c). constructor.
+    + intros i Ei x. unfold mcond_of_spec in Ei. cbn [nI] in Ei. destruct (cs_collect c); [discriminate|].
+      inversion Ei. apply agree_refl.
+    + intros s Es. discriminate.
+    + intros f Ef st _. unfold mcond_of_spec in Ef. cbn [nC] in Ef. destruct (cs_collect c); [|discriminate].
+      inversion Ef. apply agree_refl.
+    + intros t Et. discriminate.
 Qed.
 
 Theorem spec_loop_cond_ok c : cond_ok (loop_cond_of_spec c).
@@ -515,7 +532,7 @@ Qed.
 (* every graph the harness can build satisfies the hypotheses of the graph-level theorems *)
 Theorem compile_ok : forall p, sprog_wf p = true -> prog_ok (compile_sprog p).
 Proof.
-  induction p as [w id sp|p q IHp IHq|ps IH|id c alts IH|w p IHp|f|m|id c body fuel IHb] using sprog_ind';
+  induction p as [w id sp|p q IHp IHq|ps IH|id c alts IH|w p IHp|f|m| |id c alts IH|id c body fuel IHb] using sprog_ind';
     cbn [sprog_wf compile_sprog prog_ok]; intros H.
   - apply andb_prop in H as (Hw & Hs). split; [apply compile_wrap_ok, Hw|apply spec_node_ok, Hs].
   - apply andb_prop in H as (H1 & H2). split; auto.
@@ -529,6 +546,10 @@ Proof.
   - apply andb_prop in H as (Hw & Hp). split; [apply compile_wrap_ok, Hw|auto].
   - exact H.
   - exact I.
+  - exact I.
+  - split; [apply spec_mcond_ok|].
+    apply all_forall. rewrite forallb_forall in H. rewrite Forall_forall in *.
+    intros q Hq. apply in_map_iff in Hq as (p0 & <- & Hp0). apply IH; auto.
   - split; [apply spec_loop_cond_ok|auto].
 Qed.
 
@@ -626,4 +647,13 @@ Lemma loop_prog_in_domain :
   /\ g_invoke (compile_sprog loop_prog) (VS "ab"%string) = Ok (VS "n3(n2(n1(n2(n1(n2(n1(ab)))))))"%string)
   /\ vsconcatR (g_transform seq_mrg (compile_sprog loop_prog) (map Val [VS "a"%string; VS "b"%string]))
      = g_invoke (compile_sprog loop_prog) (VS "ab"%string).
+Proof. vm_compute. repeat split. Qed.
+
+(* non-vacuity with a multi-branch: two of three alternatives selected, fan-in of their streams *)
+Lemma multi_prog_in_domain :
+  sprog_wf multi_prog = true
+  /\ dom_ok (compile_sprog multi_prog) (VS "ab"%string) = true
+  /\ g_invoke (compile_sprog multi_prog) (VS "ab"%string) = Ok (VS "n4{aa=n1(ab);ab=n2(ab);}"%string)
+  /\ vsconcatR (g_transform seq_mrg (compile_sprog multi_prog) (map Val [VS "a"%string; VS "b"%string]))
+     = g_invoke (compile_sprog multi_prog) (VS "ab"%string).
 Proof. vm_compute. repeat split. Qed.
